@@ -174,7 +174,8 @@ def evaluate(prop, sc, want_trace=False):
                     stopped_at = e[0]
             elif e[2] == 'start_call':
                 stopped_at = None
-            elif e[2] == 'cycle' and stopped_at is not None:
+            elif e[2] == 'cycle' and e[3] != 'iter' and stopped_at is not None:
+                # (obtaining the iterator is not taking an item: a run that finds itself stopped ends right there)
                 V.append(Violation('C18', 'C18.emit_after_stop', e[0],
                                    '%s: a new polling cycle (%s %r) began at t=%g after stop() and before the next start()'
                                    % (typ, e[3], e[4], e[1]), node_op=typ))
@@ -204,6 +205,20 @@ def evaluate(prop, sc, want_trace=False):
                                        'from_iterable took the next item at t=%g while emission #%d was still being handled' % (e[1], busy),
                                        node_op='from_iterable'))
                     break
+    if not V and typ == 'iterable':
+        # a new pass over the iterable begins only when the previous polling loop has ended: never while an
+        # emission of this source is still being handled (the loop that issued it is alive and carries on)
+        busy = None
+        for e in ev:
+            if e[2] == 'sink_start':
+                busy = e[3]
+            elif e[2] == 'sink_end' and e[3] == busy:
+                busy = None
+            elif e[2] == 'cycle' and e[3] == 'iter' and busy is not None:
+                V.append(Violation('C18', 'C18.iterable_items', e[0],
+                                   'from_iterable began a new pass over its iterable at t=%g while emission #%d was still being handled'
+                                   % (e[1], busy), node_op='from_iterable'))
+                break
     if not V and typ == 'textfile':
         text = ''.join(o['data'] for _, o in sorted(enumerate(sc['ops']), key=lambda p: (p[1]['t'], p[0]))
                        if o['op'] == 'append' and not o.get('skip'))
